@@ -416,3 +416,117 @@ def _matmul(ra: int, rb: int, ba: int, bb: int, a_one: bool, b_one: bool, m: int
     post: _
     """
     return matmul_body(ra, rb, [1 if a_one else ba], [1 if b_one else bb], m, k, n, wrt)
+
+
+# ---- np.rollaxis / np.moveaxis / np.swapaxes (axis arithmetic of the inverse) --------------------------------------------
+
+
+def _run_vjp(name, args, kwargs=None):
+    """VJP maker registered for autograd.numpy.<name>, applied to the model's forward result; returns (result, x)"""
+    import autograd.core as core
+    import autograd.numpy as anp_real
+
+    fun = getattr(anp_real, name)
+    x = args[0]
+    ans = getattr(NS, name)(*args, **(kwargs or {}))
+    vjpmaker = core.primitive_vjps[fun]
+    with bound():
+        vjp = vjpmaker((0,), ans, tuple(args), kwargs or {})
+        out = vjp(ShArr(ans.shape, ans.cplx))
+    return (out[0] if isinstance(out, (tuple, list)) else out), x
+
+
+def perm_body(name, n, a, b):
+    probe = ShArr(list(range(100, 100 + n)))  # distinct dimensions: the shape identifies the permutation
+    try:
+        r, x = _run_vjp(name, (probe, a, b))
+    except ShapeError:
+        return False
+    except NotImplementedError:
+        return True  # refused loudly
+    except Exception as e:
+        GAPS.append("%s: %s" % (type(e).__name__, e))
+        return True
+    return r.shape == x.shape
+
+
+def _rollaxis(n: int, axis: int, start: int) -> bool:
+    """
+    pre: 1 <= n <= 4 and -n <= axis < n and -n <= start <= n
+    post: _
+    """
+    return perm_body("rollaxis", n, axis, start)
+
+
+def _moveaxis(n: int, src: int, dst: int) -> bool:
+    """
+    pre: 1 <= n <= 4 and -n <= src < n and -n <= dst < n
+    post: _
+    """
+    return perm_body("moveaxis", n, src, dst)
+
+
+def _moveaxis2_4(s0: int, s1: int, d0: int, d1: int) -> bool:
+    """
+    pre: 0 <= s0 < 4 and 0 <= s1 < 4 and -4 <= d0 < 0 and -4 <= d1 < 0
+    pre: s0 != s1 and d0 != d1
+    post: _
+    """
+    return perm_body("moveaxis", 4, (s0, s1), (d0, d1))
+
+
+def _swapaxes(n: int, a: int, b: int) -> bool:
+    """
+    pre: 1 <= n <= 4 and -n <= a < n and -n <= b < n
+    post: _
+    """
+    return perm_body("swapaxes", n, a, b)
+
+
+# ---- np.pad (constant mode): width forms and the slice arithmetic of _unpad ----------------------------------------------
+
+
+def pad_body(shape, form, lo, hi, lo2, hi2):
+    n = len(shape)
+    if form == 0:
+        width = lo
+    elif form == 1:
+        width = (lo,)
+    elif form == 2:
+        width = (lo, hi)
+    elif form == 3:
+        width = ((lo, hi),)
+    else:
+        width = tuple([(lo, hi), (lo2, hi2), (hi, lo2)][:n])
+    x = ShArr(shape)
+    try:
+        ans = NS.pad(x, width, "constant")
+        with bound():
+            r = V.pad_vjp(ans, x, width, "constant")(ShArr(ans.shape))
+    except ShapeError:
+        return False
+    except Exception as e:
+        GAPS.append("%s: %s" % (type(e).__name__, e))
+        return True
+    return r.shape == x.shape and all(o == (w0, w0 + d) for o, d, w0 in zip(r.origin, x.shape, _lows(width, n)))
+
+
+def _lows(width, n):
+    if isinstance(width, int):
+        return [width] * n
+    if len(width) == 1 and isinstance(width[0], int):
+        return [width[0]] * n
+    if len(width) == 2 and isinstance(width[0], int):
+        return [width[0]] * n
+    if len(width) == 1:
+        return [width[0][0]] * n
+    return [w[0] for w in width]
+
+
+def _pad(shape: List[int], form: int, lo: int, hi: int, lo2: int, hi2: int) -> bool:
+    """
+    pre: 1 <= len(shape) <= 3 and _nonneg(shape) and 0 <= form <= 4
+    pre: lo >= 0 and hi >= 0 and lo2 >= 0 and hi2 >= 0
+    post: _
+    """
+    return pad_body(shape, form, lo, hi, lo2, hi2)
